@@ -576,7 +576,11 @@ class Obl:
             others = [r for r in others if r not in exp]
             self.res['cbmc_properties'] = len(others)
             self.res['discharged'] = sum(1 for r in others if r['status'] == 'SUCCESS')
+        uw = [r for r in others if r['status'] == 'FAILURE' and ('unwind' in r.get('property', '') or 'recursion' in r.get('property', ''))
+              and not any(re.search(p_, r.get('property', '')) for p_ in s.get('expected_fail', []))]
         undecided_props = [r for r in others if r['status'] not in ('SUCCESS', 'FAILURE')]
+        if uw and undecided_props:
+            return self.undecided('unwinding bound too small: %s (cbmc leaves %d dependent properties UNKNOWN)' % (', '.join(r['property'] for r in uw[:4]), len(undecided_props)))
         if undecided_props:
             return self.undecided('solver left %d properties undecided (status %s), e.g. %s' % (len(undecided_props), undecided_props[0]['status'], undecided_props[0].get('property')))
         bad = [r for r in others if r['status'] != 'SUCCESS']
